@@ -4,8 +4,9 @@ import Generated.Live
 /-!
 # DfModel.JoinSchema — the target schema `join` builds (`process_target_resource`, join.py)
 
-For every entry `name ↦ {name: source field, aggregate}` of the (expanded) field specification, in
-order: the declared type is the aggregator's `dataType`, or — when that is `None` — the type of the
+For every entry `name ↦ {name: source field, aggregate}` of the (expanded) field specification, in the
+order `order_fields` gives them (entries named like a source field first, in source-schema order, then the
+others sorted by name): the declared type is the aggregator's `dataType`, or — when that is `None` — the type of the
 source field (KeyError when the source has no such field), whose other properties are copied when
 the aggregator says `copyProperties`; a target field of that name that already exists must have that
 type (AssertionError otherwise) and is kept as it is; otherwise the new field is appended.
@@ -43,8 +44,25 @@ def joinFieldStep (srcFields : List Field) (tf : List Field) (sp : JSpec) : Exce
     | some ex => if ex.type = t then .ok tf else .error (.assertion "Reusing a field with a different data type")
     | none => .ok (tf ++ [{ name := sp.name, type := t, rest := rest }])
 
-def joinTargetFields (srcFields : List Field) (specs : List JSpec) (targetFields : List Field) :
+def joinTargetFieldsRaw (srcFields : List Field) (specs : List JSpec) (targetFields : List Field) :
     Except Err (List Field) :=
   specs.foldlM (joinFieldStep srcFields) targetFields
+
+/-- insertion sort of specification entries by target name (`sorted(fields.keys())`) -/
+def insertSpec (x : JSpec) : List JSpec → List JSpec
+  | [] => [x]
+  | y :: ys => if x.name < y.name then x :: y :: ys else y :: insertSpec x ys
+
+def sortSpecs (l : List JSpec) : List JSpec := l.foldr insertSpec []
+
+/-- `order_fields(fields, source schema fields)`: entries named like a source field first, in source-schema
+order; then the others sorted by name -/
+def orderSpecs (srcFields : List Field) (specs : List JSpec) : List JSpec :=
+  srcFields.filterMap (fun f => specs.find? (fun sp => sp.name == f.name)) ++
+    sortSpecs (specs.filter (fun sp => !(srcFields.any (fun f => f.name == sp.name))))
+
+def joinTargetFields (srcFields : List Field) (specs : List JSpec) (targetFields : List Field) :
+    Except Err (List Field) :=
+  joinTargetFieldsRaw srcFields (orderSpecs srcFields specs) targetFields
 
 end Df.Join
